@@ -27,6 +27,7 @@ SOLVERS = {
 ORDER = ['z3-5.1', 'cvc5-1.0.3', 'z3-4.8.12']
 
 MAXPAR = int(os.environ.get('PYVC_JOBS', '8'))
+RETRY_MAX = 6
 
 
 def solver_versions():
@@ -195,6 +196,20 @@ def solve_many(jobs, timeout=30, tier='quick', progress=None):
             res[key] = f.result()
             if progress:
                 progress(key, res[key])
+    # second chance for a few time-outs (quick tier): the first pass runs MAXPAR queries x 3 solvers at once, possibly next to other
+    # checks; a query that needs 10 s alone can miss a 25 s budget there.  Retried two at a time with twice the budget once the pool
+    # is idle, so a verdict does not flip with the load.  Bounded: at most RETRY_MAX queries (a changed function typically times
+    # out on several obligations at once - those stay undecided).
+    if tier == 'quick':
+        texts = {job[0]: job[1] for job in jobs}
+        late = [k for k, r in res.items() if r.verdict == 'timeout'][:RETRY_MAX + 1]
+        if 0 < len(late) <= RETRY_MAX:
+            with ThreadPoolExecutor(max_workers=2) as ex:
+                futs = {ex.submit(solve_race, texts[k], timeout * 2, tier, None): k for k in late}
+                for f, k in futs.items():
+                    r = f.result()
+                    if r.verdict in ('unsat', 'sat'):
+                        res[k] = r
     return res
 
 
